@@ -5,6 +5,7 @@ import (
 	"runtime"
 	"strconv"
 	"sync"
+	"sync/atomic"
 	"time"
 
 	txfile "github.com/elastic/go-txfile"
@@ -190,4 +191,29 @@ func (p *Proc) Drain() {
 			}
 		}
 	}()
+}
+
+// WatchRun waits for done. A run hangs if the progress counter does not move for idle (the
+// total time does not matter: the machine may be busy); a run that keeps making progress
+// beyond total is reported as timed out (a failure of the harness, never a violation).
+func WatchRun(tick *int64, done <-chan struct{}, idle, total time.Duration) string {
+	last, lastAt, start := int64(-1), time.Now(), time.Now()
+	t := time.NewTicker(250 * time.Millisecond)
+	defer t.Stop()
+	for {
+		select {
+		case <-done:
+			return ""
+		case <-t.C:
+			if p := atomic.LoadInt64(tick); p != last {
+				last, lastAt = p, time.Now()
+			}
+			if time.Since(lastAt) > idle {
+				return "hang"
+			}
+			if time.Since(start) > total {
+				return "timeout"
+			}
+		}
+	}
 }
